@@ -76,10 +76,16 @@ Definition ret_code (r : ret) : list N :=
   | RFault => [4]
   end.
 
-(** Fingerprint. *)
-Definition P61 : N := 2305843009213693951.
+(** Fingerprint: polynomial hash modulo the Mersenne number 2^61-1, reduced by folding
+    ([N.modulo] costs ~0.15 ms per call under vm_compute, shifts and masks almost nothing). *)
+Definition M61 : N := 2305843009213693951.
 Definition DBASE : N := 1000000007.
-Definition mix (h x : N) : N := (h * DBASE + x mod P61 + 1) mod P61.
+Fixpoint red61 (fuel : nat) (x : N) : N :=
+  match fuel with
+  | O => x
+  | S f => if x <=? M61 then x else red61 f (N.land x M61 + N.shiftr x 61)
+  end.
+Definition mix (h x : N) : N := red61 24 (h * DBASE + red61 24 x + 1).
 Definition digest (seed : N) (l : list N) : N := fold_left mix l seed.
 
 (** Final dump as a list of numbers. *)
